@@ -408,6 +408,16 @@ def decodeVars (jsonDecode : Str → Option Val) (vars : Scope) : Scope :=
 def loopInstanceAttrs (attrs : List Attr) : List Attr :=
   removeAttr (removeAttr (removeAttr attrs (S "v-for")) (S "v-else-if")) (S "v-else")
 
+/-- the attributes of a kept (`v-keep`) template tag: `evalTemplate` evaluates the attributes of an include tag IN PLACE on the node
+    (`evalAttributes` rewrites `node.Attr`), and the kept tag is cloned from that node afterwards — so a kept include tag shows its
+    evaluated attributes (static, interpolated, bound ones merged), any other kept template its attributes as written -/
+def keptAttrs (P : Params) (s : Stack) (attrs : List Attr) : List Attr :=
+  if hasAttr attrs (S "include") then
+    match evalAttributes P s attrs with
+    | .ok (a, _) => a
+    | _ => attrs
+  else attrs
+
 mutual
 
 /-- `evaluate(ctx, nodes)` -/
@@ -452,7 +462,7 @@ def evalList (W : World) : Nat → Ctx → St → List Node → R (List Node)
               | _ => evalList W f ctx st (rest.drop ps.2))
         else if tag == S "template" then
           bindR (evalTemplate W f ctx st attrs kids) (fun res st1 =>
-            prepend (if hasAttr attrs (S "v-keep") then [.elem tag attrs res] else res) (evalList W f ctx st1 rest))
+            prepend (if hasAttr attrs (S "v-keep") then [.elem tag (keptAttrs W.P st.stack attrs) res] else res) (evalList W f ctx st1 rest))
         else
           bindR (evalPlain W f ctx st tag attrs kids) (fun res st1 => prepend res (evalList W f ctx st1 rest))
 
